@@ -61,7 +61,11 @@ Family(v)  == CASE v \in {"V1R1", "V1R2", "V1R3", "V2R1", "V2R2"} -> "v1v2"
                 [] v = "V5Beta" -> "v5beta"
                 [] v = "V5R1" -> "v5r1"
                 [] v = "HighLoadV2R2" -> "hl2"
-HasSub(v)  == Family(v) # "v1v2"
+HasSub(v)  == Family(v) # "v1v2"                     \* the version's storage holds a sub-wallet id / number
+\* ... and the library's documented API takes it as an input. wallet.New / GenerateWalletAddress document the sub-wallet id as
+\* "only used in V3 and V4 wallets"; v5 beta and highload v2 take it as well; for v5r1 the option is not an input: the wallet
+\* is the one with sub-wallet number 0 whatever the option says (observation in the evidence, not a clause of the statement)
+TakesSub(v) == Family(v) \in {"v3", "v4", "v5beta", "hl2"}
 HasNet(v)  == Family(v) \in {"v5beta", "v5r1"}
 \* versions whose messages carry a seqno / that implement sending in the library
 HasSeqno(v)     == Family(v) # "hl2"
@@ -113,10 +117,9 @@ CodeIsPublished(v) ==
 DefaultSubBits(v, wc) == IF Family(v) \in {"v3", "v4", "hl2"} THEN U(698983191 + wc, 32) ELSE U(0, 32)
 MainnetId == -239
 \* effective parameters: sub = "" (not given) or decimal text; net = [set, id]
-EffSub(v, wc, sub) == IF sub = "" THEN DefaultSubBits(v, wc) ELSE UDec(sub, 32)
+EffSub(v, wc, sub) == IF sub = "" \/ ~TakesSub(v) THEN DefaultSubBits(v, wc) ELSE UDec(sub, 32)
 EffNet(hasNet, net) == IF hasNet THEN S(net, 32) ELSE S(MainnetId, 32)
-\* the v5r1 context id has 15 bits for the sub-wallet number
-InDomain(v, sub) == (Family(v) = "v5r1" /\ sub # "") => NatLess(sub, "32768")
+InDomain(v, sub) == TRUE
 
 \* one-entry dictionaries (canonical label hml_long$10 n:(#<= m) s:(n * Bit), whole key in the root edge)
 ExtKey(pub)  == NotB(pub)
